@@ -33,6 +33,14 @@ def type_exprs(prog):
     return out
 
 
+def _ensure_lib(p):
+    if "zzlib" not in p["files"]:
+        files = {"zzlib": [{"d": "proto", "name": "zzlib"}]}
+        files.update(p["files"])
+        p["files"] = files
+        p["order"] = ["zzlib"] + list(p["order"])
+
+
 def pick(rng, xs):
     xs = list(xs)
     return rng.choice(xs) if xs else None
@@ -163,8 +171,11 @@ def inject(prog, rule, rng):
         if not c:
             return None
         file, m = c
-        what = rng.choice(["const", "alias", "proto"])
-        item = {"const": {"d": "const", "name": "ZZ_C", "v": gen.lit(3)},
+        what = rng.choice(["const", "alias", "proto", "import"])
+        if what == "import":
+            _ensure_lib(p)
+        item = {"import": {"d": "import", "file": "zzlib", "as": None},
+                "const": {"d": "const", "name": "ZZ_C", "v": gen.lit(3)},
                 "alias": {"d": "alias", "name": fresh("Ty"), "t": {"k": "uint", "n": 3}},
                 "proto": {"d": "proto", "name": "zz"}}[what]
         m["body"].insert(rng.randrange(len(m["body"]) + 1), item)
@@ -174,8 +185,11 @@ def inject(prog, rule, rng):
         e = pick(rng, es)
         if not e:
             return None
-        what = rng.choice(["const", "alias", "option", "enum", "message", "field", "proto"])
-        item = {"const": {"d": "const", "name": "ZZ_C", "v": gen.lit(3)},
+        what = rng.choice(["const", "alias", "option", "enum", "message", "field", "proto", "import"])
+        if what == "import":
+            _ensure_lib(p)
+        item = {"import": {"d": "import", "file": "zzlib", "as": None},
+                "const": {"d": "const", "name": "ZZ_C", "v": gen.lit(3)},
                 "alias": {"d": "alias", "name": fresh("Ty"), "t": {"k": "uint", "n": 3}},
                 "option": {"d": "option", "name": "max_bytes", "v": gen.lit(3)},
                 "enum": {"d": "enum", "name": fresh("En"), "n": 3,
